@@ -740,6 +740,10 @@ func emitApply(id string, c acase) {
 	if !bytes.Equal(docSnap, c.doc) || !bytes.Equal(patchSnap, c.patch) {
 		extra += " mut=1"
 	}
+	if c.o.limit > 0 && !holdResults {
+		// what each copy is worth, read off the outputs of the truncated patch (C12, also on repeated names)
+		extra += copySizesTag(c)
+	}
 	emit("APPLY %s %s %d %s %s %s => %s%s", id, c.o.flags(), c.o.limit, hx([]byte(c.indent)), hx(c.doc), hx(c.patch), obs, extra)
 }
 
